@@ -95,12 +95,15 @@ def write_replay(prop, ob, res, extra=None):
     return path
 
 
-def run_replay(path, timeout=120):
+def run_replay(path, timeout=60):
     env = dict(os.environ)
     env["PYTHONPATH"] = VERIF + os.pathsep + REPO
     env["PYTHONDONTWRITEBYTECODE"] = "1"
-    p = subprocess.run([REPLAY_PY, "-B", os.path.join(VERIF, "pyvc", "replay.py"), path], capture_output=True, text=True,
-                       timeout=timeout, env=env)
+    try:
+        p = subprocess.run([REPLAY_PY, "-B", os.path.join(VERIF, "pyvc", "replay.py"), path], capture_output=True, text=True,
+                           timeout=timeout, env=env)
+    except subprocess.TimeoutExpired:
+        return 124, "replay timed out after %d s (the inputs may describe a transfer of gigabytes)" % timeout
     return p.returncode, (p.stdout + p.stderr)[-3000:]
 
 
@@ -229,10 +232,21 @@ def run_property(prop, tier="quick", seed=0, unit_filter=None, nproc=None, extra
         else:
             status, out = run_replay(path)
             suffix = ""
+            if status == 124 and redirect is None:
+                # this instance cannot be replayed in reasonable time: try other instances of the same obligation
+                for o2, r2 in [(o, r) for o, r in items if o is not ob and o.get("inputs") is not None][:3]:
+                    path2 = write_replay(prop, o2, r2, extra=extra)
+                    st2, out2 = run_replay(path2, timeout=30)
+                    if st2 in (0, 1):
+                        ob, res, path, status, out = o2, r2, path2, st2, out2
+                        break
         doc = json.load(open(path))
         doc["replay_output"] = out
         doc["replay_reproduced"] = (status == 1)
         json.dump(doc, open(path, "w"), indent=1, default=str)
+        if status == 124:
+            undecided.append(dict(name=ob["name"], reason="obligation failed, but its counterexample could not be replayed natively within the time limit"))
+            continue
         if status not in (0, 1):
             errors.append("replay of %s crashed: %s" % (ob["name"], out[-1500:]))
             continue
